@@ -49,7 +49,28 @@ def rdmsWith {α : Type} [Zero α] (dist : List α → List α → α) (rd : Jso
   if nbs.length ≠ centers.length then throw "centers and neighbors differ in length"
   let rows := slRdms (calcRdm dist ev) (rdmWidth ev) data centers nbs pts
   pure (obj [("rdm", ofList (ofList wr) rows), ("voxel_index", ofList ofNat centers),
-             ("chunked", Json.bool (decide (centers.length > chunkLimit)))])
+             ("chunked", Json.bool (Rsa.Gen.C19.chunked centers.length))])
+
+def rdmsCvWith {α : Type} [Zero α] (dist : List α → List α → List α → List α → α)
+    (rd : Json → R α) (wr : α → Json)
+    [Add α] [Sub α] [Mul α] [Div α] [One α] [NatCast α] (j : Json) : R Json := do
+  let data ← fld j "data" >>= asList (asList rd)
+  let centers ← fld j "centers" >>= asList asNat
+  let nbs ← fld j "neighbors" >>= asList (asList asNat)
+  let ev ← fld j "events" >>= asList asInt
+  let pts ← fld j "pts" >>= asList asNat
+  if nbs.length ≠ centers.length then throw "centers and neighbors differ in length"
+  -- rejection depends on the design only
+  match calcRdmCv dist ev [] with
+  | .error e => throw e
+  | .ok _ => pure ()
+  let est : List (List α) → List α := fun sub =>
+    match calcRdmCv dist ev sub with
+    | .ok v => v
+    | .error _ => []
+  let rows := slRdms est (rdmWidth ev) data centers nbs pts
+  pure (obj [("rdm", ofList (ofList wr) rows), ("voxel_index", ofList ofNat centers),
+             ("chunked", Json.bool (Rsa.Gen.C19.chunked centers.length))])
 
 /-- `get_searchlight_RDMs` -/
 def rdms (j : Json) : R Json := do
@@ -58,6 +79,8 @@ def rdms (j : Json) : R Json := do
   | "euclidean" | "mahalanobis" => rdmsWith (α := Rat) dEuclid asRat ofRat j
   | "correlation" => rdmsWith (α := Float) dCorr asFloat ofFloat j
   | "poisson" => rdmsWith (α := Float) dPoisson asFloat ofFloat j
+  | "crossnobis" => rdmsCvWith (α := Rat) dCross asRat ofRat j
+  | "poisson_cv" => rdmsCvWith (α := Float) dPoissonCv asFloat ofFloat j
   | "euclidean_float" => rdmsWith (α := Float) dEuclid asFloat ofFloat j
   | m => throw s!"method {m} is not modelled"
 
